@@ -691,3 +691,99 @@ def ends_with_open_if(node):
     if k == "un":
         return ends_with_open_if(node[2])
     return False
+
+
+# ------------------------------------------------------------------------------------------------
+# generic rebuild: apply f(child_expr, role) to every direct expression child of a node
+# roles: 'operand', 'bind' (value of a local/object-local binding), 'elem' (array element), 'arg' (call argument),
+#        'fieldval', 'default' (parameter default), 'body' (function/local/assert/if bodies and conditions),
+#        'fname' (computed field name), 'compval' (comprehension element/value), 'spec' (for/if spec expression)
+
+def map_children(node, f):
+    k = node[0]
+
+    def params(ps):
+        return [("param", p[1], None if p[2] is None else f(p[2], "default")) for p in ps]
+
+    def bind(b, role="bind"):
+        _, name, ps, e = b
+        if ps is None:
+            return ("bind", name, None, f(e, role))
+        return ("bind", name, params(ps), f(e, "body"))
+
+    def specs(ss):
+        return [("sfor", s[1], f(s[2], "spec")) if s[0] == "sfor" else ("sif", f(s[1], "spec")) for s in ss]
+
+    def fname(n):
+        return ("ename", f(n[1], "fname")) if n[0] == "ename" else n
+
+    def obj(o):
+        if o[0] == "obj":
+            ms = []
+            for m in o[1]:
+                if m[0] == "field":
+                    ms.append(("field", fname(m[1]), m[2], m[3], f(m[4], "fieldval")))
+                elif m[0] == "ffunc":
+                    ms.append(("ffunc", fname(m[1]), params(m[2]), m[3], f(m[4], "body")))
+                elif m[0] == "mlocal":
+                    ms.append(("mlocal", bind(m[1])))
+                else:
+                    ms.append(("massert", f(m[1], "body"), None if m[2] is None else f(m[2], "body")))
+            return ("obj", ms)
+        _, l1, key, plus, val, l2, ss = o
+        return ("objcomp", [bind(b) for b in l1], f(key, "fname"), plus, f(val, "compval"), [bind(b) for b in l2], specs(ss))
+    if k in ("null", "true", "false", "self", "dollar", "num", "str", "var", "superdot"):
+        return node
+    if k == "paren":
+        return ("paren", f(node[1], "operand"))
+    if k == "arr":
+        return ("arr", [f(e, "elem") for e in node[1]])
+    if k == "arrcomp":
+        return ("arrcomp", f(node[1], "compval"), specs(node[2]))
+    if k in ("obj", "objcomp"):
+        return obj(node)
+    if k == "dot":
+        return ("dot", f(node[1], "operand"), node[2])
+    if k == "index":
+        return ("index", f(node[1], "operand"), f(node[2], "operand"))
+    if k == "slice":
+        return ("slice", f(node[1], "operand")) + tuple(None if p is None else f(p, "operand") for p in node[2:5])
+    if k in ("superidx", "insuper"):
+        return (k, f(node[1], "operand"))
+    if k == "call":
+        args = [("pos", f(a[1], "arg")) if a[0] == "pos" else ("named", a[1], f(a[2], "arg")) for a in node[2]]
+        return ("call", f(node[1], "operand"), args, node[3])
+    if k == "local":
+        return ("local", [bind(b) for b in node[1]], f(node[2], "body"))
+    if k == "if":
+        return ("if", f(node[1], "body"), f(node[2], "body"), None if node[3] is None else f(node[3], "body"))
+    if k == "func":
+        return ("func", params(node[1]), f(node[2], "body"))
+    if k == "assert":
+        return ("assert", f(node[1], "body"), None if node[2] is None else f(node[2], "body"), f(node[3], "body"))
+    if k in ("error", "import", "importstr", "importbin"):
+        return (k, f(node[1], "body"))
+    if k == "un":
+        return ("un", node[1], f(node[2], "operand"))
+    if k == "bin":
+        return ("bin", node[1], f(node[2], "operand"), f(node[3], "operand"))
+    if k == "objext":
+        return ("objext", f(node[1], "operand"), obj(node[2]))
+    raise AssertionError(k)
+
+
+def mentions(node, kinds):
+    """Whether any node of the given kinds occurs anywhere inside node."""
+    found = []
+
+    def f(child, role):
+        if not found:
+            if child[0] in kinds:
+                found.append(1)
+            else:
+                map_children(child, f)
+        return child
+    if node[0] in kinds:
+        return True
+    map_children(node, f)
+    return bool(found)
